@@ -37,7 +37,7 @@ Print Assumptions sloppy_phrase_on_example_index.
    Proved here: the conjunction and the slice disjunction (any number of children, any min).
    Not yet assembled into the tree theorem: boolean, heap disjunction, phrase, the leaves over
    index/postings.go (validated by the script correspondence on every run). ---- *)
-From Bluge Require Import Search.SearchersProofsBase Search.SearchersProofsConj Search.SearchersProofsDisj Search.SearchersProofsBool Search.SearchersProofsLeaf Search.SearchersProofsSnap Search.SearchersProofsExact.
+From Bluge Require Import Search.SearchersProofsBase Search.SearchersProofsConj Search.SearchersProofsDisj Search.SearchersProofsHeap Search.SearchersProofsBool Search.SearchersProofsLeaf Search.SearchersProofsSnap Search.SearchersProofsExact.
 
 Theorem searcher_spec_conjunction_partial :
   forall (C : Type) (cnext : C -> res (option dmatch * C)) (cadv : C -> Z -> res (option dmatch * C))
@@ -62,6 +62,25 @@ Theorem searcher_spec_disjunction_slice_partial :
          exists r st', dsl_advance C cnext cadv lf st n = Ok (r, st') /\ dsl_exact_post C CInv CFin N Ss dmin n r st').
 Proof. exact dsl_contract. Qed.
 Print Assumptions searcher_spec_disjunction_slice_partial.
+
+(* the heap disjunction (more than DisjunctionHeapTakeover = 10 clauses; container/heap from
+   Base/GoHeap.v with the order / multiset lemmas of Base/GoHeapProofs.v): any number of children,
+   any min.  A child that was not called yet (CNew) is only stepped with Next; a child that
+   reported the end is dropped for good, so once the end was reported (dhp_fin) it is reported
+   again whatever the target (dhp_fin_adv in SearchersProofsHeap.v). *)
+Theorem searcher_spec_disjunction_heap :
+  forall (C : Type) (cnext : C -> res (option dmatch * C)) (cadv : C -> Z -> res (option dmatch * C))
+         (CInv CFin : C -> (Z -> bool) -> Z -> Prop),
+    contract cnext cadv CInv CFin ->
+    forall (CNew : C -> (Z -> bool) -> Prop),
+      (forall c S, CNew c S -> exists r c', cnext c = Ok (r, c') /\ exact_post CInv CFin S 0 r c') ->
+    forall (N : Z) (Ss : list (Z -> bool)) (dmin : Z) (cdflt : C) (lf : nat) (st : dhp_st C) (lo : Z),
+      dhp_inv C CInv CNew N Ss dmin cdflt st lo -> 0 <= lo -> (Z.to_nat N + 2 <= lf)%nat ->
+      (exists r st', dhp_next C cnext lf cdflt st = Ok (r, st') /\ dhp_exact_post C CInv N Ss dmin cdflt lo r st') /\
+      (forall n, lo <= n ->
+         exists r st', dhp_advance C cnext cadv lf cdflt st n = Ok (r, st') /\ dhp_exact_post C CInv N Ss dmin cdflt n r st').
+Proof. exact dhp_contract. Qed.
+Print Assumptions searcher_spec_disjunction_heap.
 
 (* the boolean searcher, Next: for every shape (must / should / must-not present or not, any
    should.Min()) and children that are exact for Next and forward Advance, Next returns the least
